@@ -622,7 +622,7 @@ func closure(run *vlib.Run, wal bool) (states, transitions, maxDepth int, sample
 
 type BCfg struct {
 	WAL   bool   `json:"wal"`
-	Inner string `json:"inner"` // recover | apply
+	Inner string `json:"inner"` // recover | apply | unhalt (the replica gives its remote halt lock back, which checkpoints its WAL)
 }
 
 func harnessB(cfgJSON json.RawMessage) sched.Harness {
@@ -674,10 +674,34 @@ func harnessB(cfgJSON json.RawMessage) sched.Harness {
 		}
 		// The node under test: the primary for "recover", the replica for "apply".
 		N := P
-		if cfg.Inner == "apply" {
+		if cfg.Inner == "apply" || cfg.Inner == "unhalt" {
 			N = R
 		}
 		db := N.DB("db")
+		var haltFile *lab.File
+		if cfg.Inner == "unhalt" {
+			// The replica takes the halt lock and commits one forwarded transaction: its WAL now holds frames that the
+			// release of the lock will checkpoint into the database file.
+			f, err := R.M.Open("db-lock", 77)
+			if err != nil {
+				return "harness-error:lockfile", nil
+			}
+			haltFile = f
+			defer haltFile.Close()
+			ctx, cancel := context.WithTimeout(context.Background(), 5*time.Second)
+			err = haltFile.LockWait(ctx, uint64(litefs.LockTypeHalt), uint64(litefs.LockTypeHalt), true)
+			cancel()
+			if err != nil {
+				return "harness-error:halt", nil
+			}
+			hc := pager.NewConn(R.M, "db", 41, ps)
+			w := hc.RunWTx(pager.WTx{Frames: []uint32{1, 2}, Outcome: "commit"}, img)
+			hc.Close()
+			if w.Err != nil || !w.Committed {
+				return "harness-error:halt-commit", nil
+			}
+			img = w.Intended
+		}
 		clientOwner := uint64(21)
 		// Monitor inside every page write of N.
 		e.Observer = func(site string, obj any, a int64, internal bool) {
@@ -715,7 +739,7 @@ func harnessB(cfgJSON json.RawMessage) sched.Harness {
 		}
 		var aErr string
 		e.Go("A", func(th *sched.Thread) {
-			if cfg.Inner == "apply" {
+			if cfg.Inner == "apply" || cfg.Inner == "unhalt" {
 				// a reader on the replica
 				rc := pager.NewConn(N.M, "db", clientOwner, ps)
 				rc.Busy = func() bool { time.Sleep(200 * time.Microsecond); return false }
@@ -755,6 +779,10 @@ func harnessB(cfgJSON json.RawMessage) sched.Harness {
 			defer cancel()
 			if cfg.Inner == "recover" {
 				_ = N.Store.Recover(ctx)
+				return
+			}
+			if cfg.Inner == "unhalt" {
+				_ = haltFile.Unlock(uint64(litefs.LockTypeHalt), uint64(litefs.LockTypeHalt))
 				return
 			}
 			// a commit on the primary makes the replica apply (the apply runs on the replica's stream goroutine,
@@ -820,7 +848,7 @@ func TestCheck(t *testing.T) {
 	}
 	var bInfo []any
 	bExec := 0
-	for _, cfg := range []BCfg{{WAL: false, Inner: "recover"}, {WAL: true, Inner: "recover"}, {WAL: false, Inner: "apply"}, {WAL: true, Inner: "apply"}} {
+	for _, cfg := range []BCfg{{WAL: false, Inner: "recover"}, {WAL: true, Inner: "recover"}, {WAL: false, Inner: "apply"}, {WAL: true, Inner: "apply"}, {WAL: true, Inner: "unhalt"}} {
 		var tot sched.Totals
 		sched.Distributed(t, run, pool, reg, "c11b", cfg, bound, 3, 5*time.Minute, &tot)
 		bExec += tot.Executions
@@ -847,7 +875,7 @@ func TestCheck(t *testing.T) {
 		"schedules_executed":            bExec,
 		"preemption_bound":              bound,
 		"samples":                       samples,
-		"rule":                          "Part A: BFS to closure (frontier exhausted) over the implementation's lock-table key (12 mutexes x holders incl. LiteFS's internal owner) with two protocol-following owners and the internal owner; each transition is replayed from a reset table on the real DB. Part B: all schedules up to the preemption bound of an application transaction / reader against Store.Recover or a replicated apply, with a monitor in every page write.",
+		"rule":                          "Part A: BFS to closure (frontier exhausted) over the implementation's lock-table key (12 mutexes x holders incl. LiteFS's internal owner) with two protocol-following owners and the internal owner; each transition is replayed from a reset table on the real DB. Part B: all schedules up to the preemption bound of an application transaction / reader against Store.Recover, a replicated apply, or the release of the replica's remote halt lock (which checkpoints its WAL), with a monitor in every page write.",
 	}
 	if len(allOutcomes) < 10 && run.NViolations() == 0 {
 		run.HarnessError("vacuous: %d outcomes", len(allOutcomes))
